@@ -18,9 +18,11 @@ import (
 	"sort"
 	"strings"
 	"sync"
+	"sync/atomic"
 	"testing"
 	"time"
 
+	"github.com/google/jsonschema-go/jsonschema"
 	"github.com/modelcontextprotocol/go-sdk/jsonrpc"
 )
 
@@ -50,6 +52,118 @@ type pgState struct {
 	// script by a receiving middleware instead of by the SDK's handler
 	scriptMu sync.Mutex
 	script   map[string]*pgScript
+	// a Server.AddTool call parked in its validation section (user code: the schema's MarshalJSON)
+	held *pgHeld
+}
+
+// pgGate is a user-supplied schema value. Server.AddTool marshals the schemas it is given while it
+// validates the tool, before it takes Server.mu to register it: the first MarshalJSON call parks until
+// released, so that other registrations, removals and list requests run between AddTool's validation
+// section and its registering section.
+type pgGate struct {
+	parked           atomic.Bool
+	entered, release chan struct{}
+}
+
+func (g *pgGate) MarshalJSON() ([]byte, error) {
+	if g.parked.CompareAndSwap(false, true) {
+		close(g.entered)
+		<-g.release
+	}
+	return []byte(`{"type":"object"}`), nil
+}
+
+type pgHeld struct {
+	k, v string
+	gate *pgGate
+	done chan string
+}
+
+func pgToolHandler(context.Context, *CallToolRequest) (*CallToolResult, error) {
+	return &CallToolResult{}, nil
+}
+
+type pgIn struct {
+	P string `json:"p,omitempty"`
+}
+type pgOut struct {
+	Q int `json:"q"`
+}
+
+// the ways a tool can be registered (all end in Server.AddTool's registering section)
+var pgAddVariants = []string{"schema", "out", "outschema", "generic", "typed"}
+
+func pgAddVia(srv *Server, variant, k, v string) {
+	raw := json.RawMessage(`{"type":"object"}`)
+	switch variant {
+	case "schema":
+		srv.AddTool(&Tool{Name: k, Description: v, InputSchema: &jsonschema.Schema{Type: "object"}}, pgToolHandler)
+	case "out":
+		srv.AddTool(&Tool{Name: k, Description: v, InputSchema: raw, OutputSchema: json.RawMessage(`{"type":"object","properties":{"q":{"type":"integer"}}}`)}, pgToolHandler)
+	case "outschema":
+		srv.AddTool(&Tool{Name: k, Description: v, InputSchema: raw, OutputSchema: &jsonschema.Schema{Type: "object"}}, pgToolHandler)
+	case "generic":
+		AddTool(srv, &Tool{Name: k, Description: v}, func(context.Context, *CallToolRequest, map[string]any) (*CallToolResult, any, error) {
+			return &CallToolResult{}, nil, nil
+		})
+	case "typed":
+		AddTool(srv, &Tool{Name: k, Description: v}, func(context.Context, *CallToolRequest, pgIn) (*CallToolResult, pgOut, error) {
+			return nil, pgOut{}, nil
+		})
+	default:
+		srv.AddTool(&Tool{Name: k, Description: v, InputSchema: raw}, pgToolHandler)
+	}
+}
+
+// registrations the Add* functions must refuse (they panic): per kind, the variants
+var pgBadVariants = map[string][]string{
+	"tools":     {"nil", "niltyped", "notobject", "rawnotobject", "rawbroken", "header0", "header1", "header2", "header3", "header4", "header5", "outbroken", "outniltyped", "generic"},
+	"resources": {"uri"},
+	"templates": {"template"},
+}
+
+// pgAddBad attempts a registration that must be refused; it returns normally iff it was NOT refused.
+func pgAddBad(srv *Server, kind, variant, k, v string) {
+	raw := json.RawMessage(`{"type":"object"}`)
+	switch kind {
+	case "resources":
+		srv.AddResource(&Resource{URI: k, Name: v}, func(context.Context, *ReadResourceRequest) (*ReadResourceResult, error) {
+			return &ReadResourceResult{}, nil
+		})
+		return
+	case "templates":
+		srv.AddResourceTemplate(&ResourceTemplate{URITemplate: k, Name: v}, func(context.Context, *ReadResourceRequest) (*ReadResourceResult, error) {
+			return &ReadResourceResult{}, nil
+		})
+		return
+	}
+	t := &Tool{Name: k, Description: v, InputSchema: raw}
+	switch {
+	case variant == "nil":
+		t.InputSchema = nil
+	case variant == "niltyped":
+		t.InputSchema = (*jsonschema.Schema)(nil)
+	case variant == "notobject":
+		t.InputSchema = &jsonschema.Schema{Type: "string"}
+	case variant == "rawnotobject":
+		t.InputSchema = json.RawMessage(`{"type":"array"}`)
+	case variant == "rawbroken":
+		t.InputSchema = json.RawMessage(`{"type":`)
+	case strings.HasPrefix(variant, "header"):
+		var i int
+		fmt.Sscanf(variant, "header%d", &i)
+		t.InputSchema = json.RawMessage(pgBadSchemas[i%len(pgBadSchemas)])
+	case variant == "outbroken":
+		t.OutputSchema = json.RawMessage(`[`)
+	case variant == "outniltyped":
+		t.OutputSchema = (*jsonschema.Schema)(nil)
+	case variant == "generic":
+		AddTool(srv, &Tool{Name: k, Description: v}, func(context.Context, *CallToolRequest, int) (*CallToolResult, any, error) {
+			return &CallToolResult{}, nil, nil
+		})
+		return
+	}
+	srv.AddTool(t, pgToolHandler)
 }
 
 // pgScript is a foreign server's behaviour for one list method: a table from the cursor received to
@@ -235,6 +349,14 @@ func (st *pgState) close() {
 	}
 	for _, it := range st.iters {
 		pgSafe(it.stop)
+	}
+	if h := st.held; h != nil {
+		st.held = nil
+		close(h.gate.release)
+		select {
+		case <-h.done:
+		case <-time.After(10 * time.Second):
+		}
 	}
 	if st.cs != nil {
 		st.cs.Close()
@@ -572,6 +694,98 @@ func pgApply(stp **pgState, toks []string) (opline, obs string, tags []string) {
 			}
 		}
 		return opline, "ok", []string{"add", "add-" + kind}
+	case "addvia":
+		// `addvia <variant> tools x<key> x<val> …`: the other ways of registering a tool
+		variant, kind := toks[1], toks[2]
+		if kind != "tools" {
+			return opline, "bad-op", nil
+		}
+		for i := 3; i+1 < len(toks); i += 2 {
+			pgAddVia(st.srv, variant, pgUnhex(toks[i]), pgUnhex(toks[i+1]))
+		}
+		return opline, "ok", []string{"add", "add-" + kind, "addvia-" + variant}
+	case "addbad":
+		// `addbad <kind> <variant> x<key> x<val>`: a registration the Add* function must refuse (it
+		// panics); refused or not, answered `done` / `accepted` — what is registered must not change
+		if len(toks) != 5 {
+			return opline, "bad-op", nil
+		}
+		kind, variant, k, v := toks[1], toks[2], pgUnhex(toks[3]), pgUnhex(toks[4])
+		refused := false
+		func() {
+			defer func() {
+				if recover() != nil {
+					refused = true
+				}
+			}()
+			pgAddBad(st.srv, kind, variant, k, v)
+		}()
+		tags = []string{"addbad", "addbad-" + kind, "addbad-" + variant}
+		if pgHas(st.keys[kind], k) {
+			tags = append(tags, "addbad-replace")
+		}
+		if !refused {
+			return opline, "accepted", append(tags, "addbad-accepted")
+		}
+		return opline, "done", tags
+	case "addhold":
+		// `addhold tools <in|out> x<key> x<val>`: Server.AddTool on another goroutine, parked inside its
+		// validation section (the MarshalJSON of the input / output schema it was given)
+		if len(toks) != 5 || toks[1] != "tools" || st.held != nil {
+			return opline, "bad-op", nil
+		}
+		h := &pgHeld{k: pgUnhex(toks[3]), v: pgUnhex(toks[4]), done: make(chan string, 1),
+			gate: &pgGate{entered: make(chan struct{}), release: make(chan struct{})}}
+		t := &Tool{Name: h.k, Description: h.v, InputSchema: json.RawMessage(`{"type":"object"}`)}
+		if toks[2] == "out" {
+			t.OutputSchema = h.gate
+		} else {
+			t.InputSchema = h.gate
+		}
+		go func() {
+			defer func() {
+				if recover() != nil {
+					h.done <- "panic"
+				}
+			}()
+			st.srv.AddTool(t, pgToolHandler)
+			h.done <- "ok"
+		}()
+		tags = []string{"addhold", "addhold-" + toks[2]}
+		if pgHas(st.keys["tools"], h.k) {
+			tags = append(tags, "addhold-replace")
+		} else {
+			tags = append(tags, "addhold-new")
+		}
+		select {
+		case <-h.gate.entered:
+			st.held = h
+			return opline, "done", tags
+		case r := <-h.done:
+			return opline, "not-held " + r, tags
+		case <-time.After(20 * time.Second):
+			return opline, "err timeout", tags
+		}
+	case "addrelease":
+		// `addrelease tools x<key> x<val>`: let the parked AddTool go on (its registering section) and wait
+		// for it to return; with nothing parked (a minimised replay) the whole AddTool runs here
+		if len(toks) != 4 || toks[1] != "tools" {
+			return opline, "bad-op", nil
+		}
+		k, v := pgUnhex(toks[2]), pgUnhex(toks[3])
+		h := st.held
+		if h == nil || h.k != k || h.v != v {
+			pgAddVia(st.srv, "", k, v)
+			return opline, "ok", []string{"add", "add-tools", "addrelease-unheld"}
+		}
+		st.held = nil
+		close(h.gate.release)
+		select {
+		case r := <-h.done:
+			return opline, r, []string{"add", "add-tools", "addrelease"}
+		case <-time.After(20 * time.Second):
+			return opline, "err timeout", []string{"add", "add-tools", "addrelease"}
+		}
 	case "remove":
 		kind := toks[1]
 		var ks []string
@@ -904,6 +1118,9 @@ func (g *pgGen) kind() string { return pgKinds[g.rng.Intn(len(pgKinds))] }
 func (g *pgGen) addOp(kind string, n int) string {
 	st := *g.st
 	toks := []string{"add", kind}
+	if kind == "tools" && n <= 4 && g.rng.Intn(3) == 0 { // another way of registering a tool
+		toks = []string{"addvia", pgAddVariants[g.rng.Intn(len(pgAddVariants))], kind}
+	}
 	for i := 0; i < n; i++ {
 		var k string
 		if ks := st.keys[kind]; len(ks) > 0 && g.rng.Intn(4) == 0 {
@@ -980,6 +1197,9 @@ func (g *pgGen) readonly() string {
 		}
 		return g.key(kind), false
 	}
+	if g.rng.Intn(8) == 0 {
+		return g.addBad()
+	}
 	switch r := g.rng.Intn(100); {
 	case r < 50:
 		uri := ""
@@ -1008,6 +1228,86 @@ func (g *pgGen) readonly() string {
 		return "ro complete.x" + hxs(k) + " -"
 	default:
 		return "ro ping -"
+	}
+}
+
+// addBad draws a registration that must be refused: a tool (half of the time under a registered name: a
+// refused replacement keeps the old tool) with a missing / nil / non-object / unmarshalable input schema,
+// an invalid x-mcp-header annotation, a broken output schema; a resource whose URI does not parse; a
+// resource template that is not a URI template. What is registered must not change.
+func (g *pgGen) addBad() string {
+	st := *g.st
+	kind := []string{"tools", "tools", "resources", "templates"}[g.rng.Intn(4)]
+	vs := pgBadVariants[kind]
+	variant := vs[g.rng.Intn(len(vs))]
+	var k string
+	switch kind {
+	case "tools":
+		if ks := st.keys[kind]; len(ks) > 0 && g.rng.Intn(2) == 0 {
+			k = ks[g.rng.Intn(len(ks))]
+		} else {
+			k = g.key(kind)
+		}
+	case "resources":
+		// in the path (url.Parse does not check the query), or a control character anywhere
+		k = "file:///" + []string{"%zz", "%-", "\x7f", "%a/"}[g.rng.Intn(4)] + strings.TrimPrefix(g.key(kind), "file:///")
+	default:
+		k = strings.TrimSuffix(g.key(kind), "{x}") + []string{"{x", "{", "{x}{", "{x}}"}[g.rng.Intn(4)]
+	}
+	return "addbad " + kind + " " + variant + " x" + hxs(k) + " x" + hxs(g.val())
+}
+
+// heldAdd: Server.AddTool is parked inside its validation section (half of the time for a name that is
+// registered: a replacement) while the tool is removed / other tools are added, removed / the listing is
+// traversed (which rebuilds the sorted index); then it goes on and registers. Afterwards the tool is
+// registered: a traversal must return it.
+func (g *pgGen) heldAdd(emit pgEmit) {
+	st := *g.st
+	const kind = "tools"
+	if st.held != nil {
+		return
+	}
+	var k string
+	if ks := st.keys[kind]; len(ks) > 0 && g.rng.Intn(3) != 0 {
+		k = ks[g.rng.Intn(len(ks))]
+	} else {
+		k = g.key(kind)
+	}
+	v := g.val()
+	if emit("addhold "+kind+" "+[]string{"in", "out"}[g.rng.Intn(2)]+" x"+hxs(k)+" x"+hxs(v)) != "done" {
+		return
+	}
+	for i, n := 0, 1+g.rng.Intn(4); i < n; i++ {
+		st = *g.st
+		switch r := g.rng.Intn(10); {
+		case r < 3: // the tool is removed while its (re-)registration is under way
+			emit("remove " + kind + " x" + hxs(k))
+			var keep []string
+			for _, x := range st.keys[kind] {
+				if x != k {
+					keep = append(keep, x)
+				}
+			}
+			st.keys[kind] = keep
+		case r < 5:
+			emit(g.mutation(kind))
+		case r < 7:
+			emit("list " + kind + " -")
+		case r < 9:
+			g.traversal(emit, kind, []int{0, 0, 50}[g.rng.Intn(3)])
+		default:
+			emit(g.readonly())
+		}
+	}
+	st = *g.st
+	emit("addrelease " + kind + " x" + hxs(k) + " x" + hxs(v))
+	if !pgHas(st.keys[kind], k) {
+		st.keys[kind] = append(st.keys[kind], k)
+	}
+	if g.rng.Intn(4) != 0 {
+		g.traversal(emit, kind, 0)
+	} else {
+		emit("iterall " + kind + " -")
 	}
 }
 
@@ -1329,7 +1629,9 @@ func pgRunCase(out *verifOut, cs string, c int) {
 		if rng.Intn(3) == 0 {
 			kind = g.kind()
 		}
-		switch r := rng.Intn(112); {
+		switch r := rng.Intn(122); {
+		case r >= 112: // an AddTool parked between its validation and its registering section
+			g.heldAdd(emit)
 		case r >= 100: // the client against a foreign (scripted) server
 			g.scriptRun(emit, kind)
 		case r < 30:
